@@ -149,7 +149,7 @@ fn main() {
             });
         }
     }
-    let code = ctx.finish("every opaque-conversion rule (shared/mutable reference, CBox, CSliceBox, CArc, CArcSome, Fwd over each, PhantomData, CGlueObjContainer, generated single-trait object, generated group, its cast (With) variants, the same for a trait with real temporary-return storage) x instance handle kind x context (none / CArc) x payload in {Send,!Send}x{Sync,!Sync} x marker in {Send,Sync}: booleans `X: Marker` are computed on concrete types with the inherent-const-shadows-trait-const trick; oracle: convertible and marker(opaque form) implies marker(handle). Plus the smart pointers themselves (CBox, CSliceBox, CArc, CArcSome, and Fwd over &T / &mut T / Box / Rc / Arc) against the std handle each is built from (Box, Box<[T]>, Option<Arc>, Arc, the forwarded handle itself): marker(smart pointer) implies marker(std handle). Non-trivial = the payload lacks the marker", &["the opaque target type of each rule is stated in the matrix and compared with type_name of the real associated type"], true);
+    let code = ctx.finish("every opaque-conversion rule (shared/mutable reference, CBox, CSliceBox, CArc, CArcSome, Fwd over each, PhantomData, CGlueObjContainer, generated single-trait object, generated group, its cast (With) variants, the same for a trait with real temporary-return storage) x instance handle kind x context (none / CArc) x payload in {Send,!Send}x{Sync,!Sync} x marker in {Send,Sync}: booleans `X: Marker` are computed on concrete types with the inherent-const-shadows-trait-const trick; oracle: convertible and marker(opaque form) implies marker(handle). Plus the smart pointers themselves (CBox, CSliceBox, CArc, CArcSome, CVec, and Fwd over &T / &mut T / Box / Rc / Arc) against the std handle each is built from (Box, Box<[T]>, Option<Arc>, Arc, Vec, the forwarded handle itself): marker(smart pointer) implies marker(std handle). Non-trivial = the payload lacks the marker", &["the opaque target type of each rule is stated in the matrix and compared with type_name of the real associated type"], true);
     std::process::exit(code);
 }
 """
@@ -192,6 +192,9 @@ def make():
             ("w-cslicebox", f"Box<[{P}]>", f"CSliceBox<'static, {P}>"),
             ("w-carc", f"Option<std::sync::Arc<{P}>>", f"CArc<{P}>"),
             ("w-carcsome", f"std::sync::Arc<{P}>", f"CArcSome<{P}>"),
+            # the owning vector: a payload may contain one, and it passes the CBox gate on the
+            # strength of the vector's own markers
+            ("w-cvec", f"Vec<{P}>", f"cglue::vec::CVec<{P}>"),
             ("w-fwd-ref", f"&'static {P}", f"Fwd<&'static {P}>"),
             ("w-fwd-mut", f"&'static mut {P}", f"Fwd<&'static mut {P}>"),
             ("w-fwd-box", f"Box<{P}>", f"Fwd<Box<{P}>>"),
